@@ -2,7 +2,10 @@
 
 Part 1 (exhaustive, both tiers): `isa_probe --codec` under ASan+UBSan - all 256 opcode bytes x the cartesian
 product of boundary patterns over the operand slots, every truncation length, exact-size heap blocks, expected
-bytes computed by the probe itself (little-endian, sizes hard-coded).  `isa_probe --text` pushes the same cells
+bytes computed by the probe itself (little-endian, sizes hard-coded).  The table is run in three call ORDERS, each
+in a fresh process: decode-first (a complete decode-only pass before isa_encode was ever called - what nano_vm, the
+verifier and the disassembler do), encode-first, and interleaved (shuffled opcodes, per opcode decode-before-encode
+or the reverse), so that state hidden between calls of the two functions cannot make the verdict order dependent.  `isa_probe --text` pushes the same cells
 through disasm_module -> asm_assemble.
 
 Part 2 (exploration): `rt_probe` (nvm_deserialize -> disasm_module -> asm_assemble -> compare code, function
@@ -1036,7 +1039,7 @@ def replay(ctx, path):
         return 0 if "\tsame\t" in r.text() else 1
     if os.path.exists(os.path.join(path, "codec.txt")) or os.path.exists(os.path.join(path, "report.txt")):
         bad = 0
-        for mode in (["--codec", str(ctx.seed), "2000"], ["--text"]):
+        for mode in [["--codec", str(ctx.seed), "2000", o] for o in ORDERS] + [["--text"]]:
             r = sh([asan.probe("isa_probe")] + mode, cpu=600, san=True)
             out = [l for l in r.text().splitlines() if l.startswith("FAIL") or l.startswith("SUMMARY")]
             print("\n".join(out[:50]) + r.errtext()[-2000:])
